@@ -22,13 +22,24 @@ RULE = ('cases = generating model of a join query: 1-3 data items (tables of int
         'partition_size), 5 catalog shapes (metadata list / legacy dict / default namespace = project / = integration / '
         'integration dicts; to_predict as list, string, absent; versions); judged: the five clauses of the design section; '
         'plus a bounded-exhaustive part (10 WHERE skeletons x all pairs of 10 atom kinds x 3 FROM shapes); '
+        'added shapes (generated and listed): un-aliased items whose names share a suffix (int1.t1 / int2.t1, a table named '
+        'like the model, two models of one version; referenced by any unique name), un-aliased versions, model JOIN table '
+        'ON model.col = table.col, a second value for one argument, USING keys with a dot (own dotted name, every unique '
+        'name of every item as prefix), to_predict = [] / two targets, a table of a schema named like the project; '
         'non-trivial = (>= 1 model atom and >= 1 table atom in WHERE) or a non-conjunctive WHERE; distinct by (catalog, text)')
 ASSUMPTIONS = ['the planner is handed the tree parse_sql(text, "mindsdb") produces; the model and the parsed tree are '
                'compared first (a mismatch is a harness error, not a verdict)',
                'predict-target atoms (m.<to_predict> = const) are not model arguments (pinned by the repository tests)',
-               'open (any reading accepted): reversed spelling `const = m.col`, row_dict / columns_map None vs {}, which '
-               'allowed conjuncts are actually pushed (clause 3 is a soundness clause)',
-               'USING key prefixes are spelled exactly like the declared alias (or the model name when there is no alias)']
+               '`const = m.col` is an equality between a model column and a constant like `m.col = const`',
+               'open (any reading accepted): row_dict / columns_map None vs {}, which allowed conjuncts are actually pushed '
+               '(clause 3 is a soundness clause), whether a further entry of a to_predict list is a target (either, but then '
+               'consistently: in row_dict and neutralised, or neither)',
+               'two different values for one argument cannot both be passed: accepted are a PlanningException naming '
+               '"Multiple values" or a plan in which only the conjunct whose value is passed stops filtering',
+               'a USING key addresses the item named by its longest dotted prefix (alias, or any name of an un-aliased item '
+               'that is unique in the query, in any case); a dotted key whose prefixes name no item of the query is the '
+               'name of the option and is for every model',
+               'an item is referenced by a name that only it has (SQL name resolution); ambiguous references are not generated']
 _F = {'__nontrivial__': 1600, 'clean-nontrivial': 900, 'where:conjunction': 2000, 'where:non-conjunctive': 1000,
       'atom:marg': 2200, 'atom:mtarget': 280, 'atom:mrev': 380, 'atom:tconst': 1200, 'atom:mtcol': 370,
       'ctx:m:under-not': 340, 'ctx:m:under-or': 420, 'ctx:t:under-not': 130, 'ctx:m:under-func': 100,
@@ -37,12 +48,14 @@ _F = {'__nontrivial__': 1600, 'clean-nontrivial': 900, 'where:conjunction': 2000
       'judged:partition': 1000, 'judged:columns_map-non-empty': 1400, 'judged:input-is-a-join': 2800,
       'models:2': 1000, 'aliases:no': 1300, 'item:sub-select': 900, 'item:model-version': 550, 'order:model-first': 200,
       'order:model-in-between': 390, 'join:LEFT JOIN': 1300, 'using:prefixed': 1800, 'using:mixed-case': 1600,
-      'catalog:legacy': 800, 'catalog:default-proj': 800, 'catalog:default-int1': 800, 'catalog:dicts': 800}
+      'catalog:legacy': 800, 'catalog:default-proj': 800, 'catalog:default-int1': 800, 'catalog:dicts': 800,
+      'names:shared-suffix': 170, 'on:model-first': 70, 'table:schema-named-like-project': 120,
+      'to_predict:empty-list': 140, 'where:duplicate-argument': 120, 'atom:mtarget2': 25}
 FLOORS = {'quick': dict(_F), 'thorough': {k: v * 8 for k, v in _F.items()}}
 N = {'quick': 800, 'thorough': 8000}
 
 TABLES = {'t1': 'int1', 't2': 'int1', 't3': 'int2', 't4': 'int2'}
-MODELS = {'pred': ['y'], 'pred2': None, 'pred3': 'Y'}          # name -> to_predict
+MODELS = {'pred': ['y'], 'pred2': None, 'pred3': 'Y', 'pred4': [], 'pred5': ['y', 'z']}          # name -> to_predict
 CATALOGS = ('list', 'legacy', 'default-proj', 'default-int1', 'dicts')
 CMP = ('=', '!=', '<', '>', '<=', '>=')
 
@@ -107,7 +120,6 @@ class Q:
         al = [i.get('alias') for i in its]
         if any(al) and not all(al):
             return 'aliases neither everywhere nor nowhere'
-        names = []
         for i in its:
             if i['k'] == 'model':
                 if i['name'] not in MODELS:
@@ -122,11 +134,10 @@ class Q:
                     return 'unqualified table'
                 if i['k'] == 'sub' and not i.get('alias'):
                     return 'sub-select without alias'
-            names.append((i.get('alias') or i['name']).lower())
-            if not i.get('alias') and i.get('version') is not None:
-                return 'version without alias'
-        if len(set(names)) != len(names):
-            return 'ambiguous names'
+                if i['k'] == 'sub' and (i.get('tname') or i.get('schema')):
+                    return 'sub-select of a renamed table'
+        if any(not self.qualifiers(idx) for idx in range(len(its))):
+            return 'ambiguous names'          # an item that no column reference can name
         if its[0].get('on') is not None:
             return 'ON on first item'
         if not any(i['k'] == 'model' for i in its) or not any(i['k'] != 'model' for i in its):
@@ -134,11 +145,23 @@ class Q:
         return None
 
     # -- names
-    def target_of(self, idx):
+    def targets_of(self, idx):
         t = MODELS[self.items[idx]['name']]
-        if isinstance(t, list):
-            t = t[0]
-        return t.lower() if t else None
+        if t is None:
+            return []
+        return [x.lower() for x in (t if isinstance(t, list) else [t])]
+
+    def shared_suffix(self):
+        """Do two un-aliased items share a name suffix (int1.t1 / int2.t1, a table named like the model, two versions 3)?"""
+        seen = set()
+        for idx in range(len(self.items)):
+            if self.items[idx].get('alias'):
+                continue
+            for t in self.name_tuples(idx):
+                if t in seen:
+                    return True
+                seen.add(t)
+        return False
 
     def written_parts(self, idx):
         i = self.items[idx]
@@ -147,7 +170,8 @@ class Q:
             if i.get('version') is not None:
                 p.append(str(i['version']))
             return p
-        return ([TABLES[i['name']]] if i.get('qualified', True) else []) + [i['name']]
+        return ([TABLES[i['name']]] if i.get('qualified', True) else []) + ([i['schema']] if i.get('schema') else []) \
+            + [i.get('tname') or i['name']]
 
     def name_tuples(self, idx):
         i = self.items[idx]
@@ -160,18 +184,43 @@ class Q:
         parts = tuple(str(x).lower() for x in parts)
         if not parts:
             return None
-        for idx in range(len(self.items)):
-            if parts in self.name_tuples(idx):
-                return idx
-        return ('?',) + parts
+        hit = [idx for idx in range(len(self.items)) if parts in self.name_tuples(idx)]
+        if len(hit) == 1:
+            return hit[0]
+        return (('ambiguous',) if hit else ('?',)) + parts
+
+    def qualifiers(self, idx):
+        """Spellings by which a column reference / USING key can name the item: shortest first, as written."""
+        i = self.items[idx]
+        if i.get('alias'):
+            return [i['alias']]
+        p = self.written_parts(idx)
+        out = []
+        for k in range(len(p) - 1, -1, -1):
+            if not p[k][0].isdigit() and self.resolve(p[k:]) == idx:          # `3.col` is no column reference
+                out.append('.'.join(p[k:]))
+        return out
+
+    def key_target(self, k):
+        """(item the key is addressed to | 'all', option name, tag): the longest prefix that names an item of the query."""
+        parts = k.split('.')
+        for n in range(len(parts) - 1, 0, -1):
+            r = self.resolve(parts[:n])
+            if isinstance(r, int):
+                pre = '.'.join(parts[:n])
+                tag = 'key:prefix-multi-part' if n > 1 else ('key:prefix-upper' if pre != pre.lower() else 'key:prefix-lower')
+                return r, '.'.join(parts[n:]), tag
+            if r[0] == 'ambiguous':
+                return None, k, 'key:ambiguous'
+        return 'all', k, ('key:dotted-name' if len(parts) > 1 else 'key:plain')
 
     def qual_text(self, idx, q):
         i = self.items[idx]
         if i.get('alias'):
             v = [i['alias'], i['alias'], swapcase(i['alias'])]
         else:
-            p = self.written_parts(idx)
-            v = [p[-1], '.'.join(p)]
+            p = self.qualifiers(idx)
+            v = [p[0], p[-1]]
         return v[q % len(v)]
 
     # -- text
@@ -403,6 +452,12 @@ def inner_ops(o, out):
     return out
 
 
+def arg_of(a):
+    """(column operand, constant operand) of `col = const` / `const = col`."""
+    x, y = a['args']
+    return (x, y) if 'col' in x else (y, x)
+
+
 def classify(a, q):
     """Label of an atom, from its structure only."""
     args, op = a['args'], a['op']
@@ -416,10 +471,12 @@ def classify(a, q):
         c = cols[0]
         first = args[0] is c
         if ismodel(c):
-            tgt = q.target_of(c['of'])
+            tgts = q.targets_of(c['of'])
             if op == '=' and len(args) == 2:
-                if tgt is not None and c['col'].lower() == tgt:
+                if c['col'].lower() in tgts[:1]:
                     return 'mtarget' if first else 'mrev-target'
+                if c['col'].lower() in tgts:
+                    return 'mtarget2'          # a further target: open, whether it is one (either way, consistently)
                 return 'marg' if first else 'mrev'
             return 'mcmp'
         return 'tconst' if first else 'trev'
@@ -469,9 +526,19 @@ def judge(case, col):
         # NOT (NOT a OR b) makes `a` a conjunct again: polarity is not modelled, such trees are outside the domain
         col.excluded('nested negation')
         return []
+    if any(q.key_target(k)[0] is None for k, _ in (q.using or [])):
+        col.excluded('USING key with an ambiguous prefix')
+        return []
     sql = q.sql()
     aliased = bool(items[0].get('alias'))
     cfg = {'catalog': q.cat, 'aliases': 'yes' if aliased else 'no'}
+    gfeats = []          # mechanisms of the whole statement; on every record
+    if q.shared_suffix():
+        gfeats.append('names:shared-suffix')
+    if any(it.get('schema') for it in items):
+        gfeats.append('table:schema-named-like-project')
+    if any(it['k'] == 'model' and MODELS[it['name']] == [] for it in items):
+        gfeats.append('to_predict:empty-list')
     models = [i for i, it in enumerate(items) if it['k'] == 'model']
     model_first = items[0]['k'] == 'model'
     if model_first and len(items) > 2:
@@ -493,8 +560,18 @@ def judge(case, col):
         for a, c in on_atoms[j]:
             registry[erase(atom_abs(a))] = (('on', j), a, c, 'atom')
 
+    # top-level arguments per (model, column as written); two different values for one column cannot both be passed
+    arg_groups = {}
+    for a, c in w_atoms:
+        if labels[a['id']] in ('marg', 'mrev', 'mtarget2') and c == 'top':
+            o, k = arg_of(a)
+            arg_groups.setdefault((o['of'], o['col']), []).append(c_abs(k['const']))
+    dup_cols = {k: v for k, v in arg_groups.items() if len(set(v)) > 1}
+
     classes = ['catalog:' + q.cat, 'aliases:' + cfg['aliases'], f'data-items:{len(items) - len(models)}',
-               f'models:{len(models)}']
+               f'models:{len(models)}'] + gfeats
+    if dup_cols:
+        classes.append('where:duplicate-argument')
     classes += sorted({'atom:' + labels[a['id']] for a, _ in w_atoms})
     classes += sorted({'ctx:' + labels[a['id']][0] + ':' + c for a, c in w_atoms})
     nonconj = any(c != 'top' for _, c in w_atoms)
@@ -555,12 +632,15 @@ def judge(case, col):
     try:
         plan = plan_query(tree, **catalog(q.cat))
     except (PlanningException, NotImplementedError) as e:
-        return done([findings.record('refused', type(e).__name__, [], cfg, str(e)[:200], sql)], ['refused'])
+        if dup_cols and isinstance(e, PlanningException) and 'Multiple values' in str(e):
+            # two different values for one argument: no plan can pass both (a select from the model is refused alike)
+            return done([], ['refused', 'refused:duplicate-argument'])
+        return done([findings.record('refused', type(e).__name__, gfeats, cfg, str(e)[:200], sql)], ['refused'])
     except RecursionError:
         col.excluded('recursion')
         return []
     except Exception as e:
-        return done([findings.record('refused', 'crash:' + site_of(e), [], cfg, repr(e)[:200], sql)], ['refused'])
+        return done([findings.record('refused', 'crash:' + site_of(e), gfeats, cfg, repr(e)[:200], sql)], ['refused'])
 
     out = []
     steps = flat_steps(plan)
@@ -568,7 +648,7 @@ def judge(case, col):
     inside = {id(s): par for s, par in steps}
 
     def rec(kind, site, feats, detail):
-        out.append(findings.record(kind, site, feats, cfg, detail + ' | plan: ' + plan_text(plan), sql))
+        out.append(findings.record(kind, site, list(feats) + gfeats, cfg, detail + ' | plan: ' + plan_text(plan), sql))
 
     # ---- which step stands for which FROM item
     sub_wrappers = [s for s, _ in steps if type(s).__name__ == 'SubSelectStep' and s.table_name is not None]
@@ -581,8 +661,9 @@ def judge(case, col):
             ft = getattr(s.query, 'from_table', None)
             if isinstance(ft, ast.Identifier):
                 al = ft.alias.parts[-1] if ft.alias is not None else None
-                cand = [i for i, it in enumerate(items) if it['k'] == 'table' and it['name'] == ft.parts[-1]
-                        and it.get('alias') == al and TABLES[it['name']] == s.integration]
+                cand = [i for i, it in enumerate(items) if it['k'] == 'table' and (it.get('tname') or it['name']) == ft.parts[-1]
+                        and it.get('alias') == al and TABLES[it['name']] == s.integration
+                        and (not it.get('schema') or [str(x) for x in ft.parts[-2:-1]] == [it['schema']])]
                 idx = cand[0] if len(cand) == 1 else None
             if idx is None:
                 shape_problem = f'fetch step {s.step_num} stands for no table of the query'
@@ -639,9 +720,7 @@ def judge(case, col):
             return leaves(subs[-1].result, depth + 1) if subs else {'?'}
         return {'?'}
 
-    def own_name(mi):
-        return items[mi]['alias'] if items[mi].get('alias') else q.written_parts(mi)[-1]
-
+    key_target = q.key_target
     any_partition = False
     exp_params = {}
     for mi in models:
@@ -651,13 +730,10 @@ def judge(case, col):
         prm = {}
         ps_key = None
         for k, v in q.using:
-            if '.' in k:
-                pre, rest = k.split('.', 1)
-                if pre != own_name(mi):
-                    continue
-                k2 = rest.lower()
-            else:
-                k2 = k.lower()
+            tgt, name, _ = key_target(k)
+            if tgt not in ('all', mi):
+                continue
+            k2 = name.lower()
             prm[k2] = v
             if k2 == 'partition_size':
                 ps_key = k
@@ -689,15 +765,27 @@ def judge(case, col):
         exp_rd, open_rd = {}, {}
         for a, c in w_atoms:
             lab = labels[a['id']]
-            if lab == 'marg' and a['args'][0]['of'] == mi and c == 'top':
-                exp_rd[a['args'][0]['col']] = a['args'][1]['const']
-            if lab == 'mrev' and a['args'][1]['of'] == mi and c == 'top':
-                open_rd[a['args'][1]['col']] = a['args'][0]['const']
+            if lab in ('marg', 'mrev', 'mtarget2') and c == 'top' and arg_of(a)[0]['of'] == mi:
+                o, k = arg_of(a)
+                if (mi, o['col']) in dup_cols:
+                    continue
+                if lab == 'mtarget2':
+                    open_rd[o['col']] = k['const']
+                else:
+                    exp_rd[o['col']] = k['const']
         got_rd = dict(s.row_dict or {})
         if exp_rd:
             classes.append('judged:row_dict-non-empty')
         for k2 in sorted(set(got_rd) | set(exp_rd), key=str):
+            if (mi, k2) in dup_cols and k2 not in got_rd:
+                continue
             if k2 in open_rd and k2 in got_rd and typed(open_rd)[k2] == typed(got_rd)[k2]:
+                continue
+            if (mi, k2) in dup_cols:
+                # one of the values at most; the conjuncts whose value is not passed have to go on filtering (below)
+                if c_abs(got_rd[k2]) not in dup_cols[(mi, k2)]:
+                    rec('row-dict', 'value', ['where:duplicate-argument'], f'row_dict[{k2!r}] = {got_rd[k2]!r} is none of the '
+                                                                           f'values of the query')
                 continue
             if k2 not in exp_rd:
                 org = [(a, c) for a, c in w_atoms if any('col' in o and o['col'] == k2 for o in a['args'])]
@@ -705,7 +793,9 @@ def judge(case, col):
                 rec('row-dict', 'extra', feats, f'row_dict of {it["name"]} has {k2!r}: {got_rd[k2]!r} which is no '
                                                f'top-level `model.col = constant` conjunct of WHERE (expected {exp_rd})')
             elif k2 not in got_rd:
-                rec('row-dict', 'missing', ['where:non-conjunctive' if nonconj else 'where:conjunction'],
+                src = sorted({'atom:' + labels[a['id']] for a, c in w_atoms if labels[a['id']] in ('marg', 'mrev') and c == 'top'
+                              and arg_of(a)[0]['of'] == mi and arg_of(a)[0]['col'] == k2})
+                rec('row-dict', 'missing', ['where:non-conjunctive' if nonconj else 'where:conjunction'] + src,
                     f'row_dict of {it["name"]} lacks {k2!r} (expected {exp_rd}, got {got_rd})')
             elif typed(exp_rd)[k2] != typed(got_rd)[k2]:
                 rec('row-dict', 'value', [], f'row_dict[{k2!r}] = {got_rd[k2]!r}, expected {exp_rd[k2]!r}')
@@ -723,23 +813,20 @@ def judge(case, col):
             site = 'missing' if miss else ('extra' if extra else 'value')
             feats = list(mfeat)
             for k, _ in (q.using or []):
-                pre, _, rest = k.partition('.') if k.split('.')[0] == own_name(mi) else k.rpartition('.')
-                if pre and rest.lower() in miss and pre == own_name(mi):
-                    feats.append('key:prefix-upper' if pre != pre.lower() else 'key:prefix-lower')
-                if not pre and k.lower() in miss:
-                    feats.append('key:plain')
-                if pre and rest.lower() in extra and pre != own_name(mi):
+                tgt, name, tag = key_target(k)
+                if tgt in ('all', mi) and name.lower() in miss:
+                    feats.append(tag)
+                if tgt not in ('all', mi) and name.lower() in extra:
                     feats.append('key:foreign-prefix')
-                if k in extra and k != k.lower():
+                if name in extra and name != name.lower():
                     feats.append('key:case-kept')
-                if k.lower() in extra and k.lower().endswith('partition_size'):
+                if name.lower() in extra and name.lower() == 'partition_size':
                     feats.append('key:partition_size-kept')
             rec('params', site, feats, f'params of {it["name"]} = {s.params!r}, expected {e_prm!r} (USING {q.using})')
         par = inside.get(id(s))
         if e_ps is not None:
             if par is None:
-                pre = ps_key.rpartition('.')[0]
-                pf = ['key:plain'] if not pre else ['key:prefix-upper' if pre != pre.lower() else 'key:prefix-lower']
+                pf = [key_target(ps_key)[2]]
                 rec('partition', 'not-partitioned', mfeat + pf, f'partition_size={e_ps!r} but the apply step is not inside a '
                                                            f'MapReduceStep')
             elif par[1] == 0 and (typed({'p': par[0].partition}) != typed({'p': e_ps}) or par[0].values != s.dataframe):
@@ -749,7 +836,10 @@ def judge(case, col):
             rec('partition', 'unexpected', mfeat, 'apply step inside a MapReduceStep without partition_size')
         # (5) columns_map
         exp_cm = {}
-        for a, c in on_atoms[mi]:
+        own_on = on_atoms[1] if model_first else on_atoms[mi]          # model first: the condition is written at the table
+        if model_first and items[1].get('on') is not None:
+            classes.append('on:model-first')
+        for a, c in own_on:
             l, r = a['args'][0], a['args'][1] if len(a['args']) == 2 else None
             if c == 'top' and a['op'] == '=' and r is not None and 'col' in l and 'col' in r:
                 if l['of'] == mi and r['of'] != mi:
@@ -764,12 +854,14 @@ def judge(case, col):
             for k2 in set(got_cm) | set(exp_cm):
                 if got_cm.get(k2) == exp_cm.get(k2):
                     continue
-                org = [(a, c) for a, c in on_atoms[mi]
+                org = [(a, c) for a, c in own_on
                        if any('col' in o and o['col'] in (k2, (got_cm.get(k2) or ('', '', ''))[2]) for o in a['args'])]
                 for a, c in org:
                     feats.add('ctx:' + c)
                     feats.add('op:' + ('eq' if a['op'] == '=' else 'non-eq'))
                 feats.add('map:extra' if k2 not in exp_cm else ('map:missing' if k2 not in got_cm else 'map:value'))
+            if model_first:
+                feats.add('order:model-first')
             rec('columns-map', 'mapping', sorted(feats), f'columns_map of {it["name"]} = {got_cm}, expected {exp_cm}')
 
     # ---- (2) the outer filter
@@ -789,11 +881,16 @@ def judge(case, col):
                 for a, c in w_atoms:
                     lab, g = labels[a['id']], got_at.get(a['id'])
                     feats = ['atom:' + lab, 'ctx:' + c]
-                    if lab == 'marg' and c == 'top':
-                        want_neutral = True
-                    elif lab == 'mrev' and c == 'top':
-                        o = a['args'][1]
-                        want_neutral = o['col'] in applied.get(o['of'], {})       # open: either, but consistently
+                    if lab in ('marg', 'mrev', 'mtarget2') and c == 'top':
+                        o, k = arg_of(a)
+                        passed = o['col'] in applied.get(o['of'], {}) and c_abs(applied[o['of']][o['col']]) == c_abs(k['const'])
+                        if (o['of'], o['col']) in dup_cols:
+                            feats.append('where:duplicate-argument')
+                            want_neutral = passed          # only the value that is passed to the model stops filtering
+                        elif lab == 'mtarget2':
+                            want_neutral = passed          # open: either, but consistently
+                        else:
+                            want_neutral = True
                     else:
                         want_neutral = False
                     if want_neutral:
@@ -917,7 +1014,8 @@ def cases(draw):
     comma = chance(1, 10)
     items = []
     t_names = draw(st.permutations(sorted(TABLES)))
-    m_names = draw(st.permutations(sorted(MODELS))) if not aliased else [pick(sorted(MODELS)) for _ in range(2)]
+    pool = [m for m in sorted(MODELS) if MODELS[m] != []] + (['pred4'] if chance(1, 3) else [])          # [] : rarer
+    m_names = draw(st.permutations(pool)) if not aliased else [pick(pool) for _ in range(2)]
     d_alias = iter(['t', 'u', 'v'])
     m_alias = iter(['m', 'n'])
     nd = nm = 0
@@ -944,6 +1042,33 @@ def cases(draw):
             it['alias'] = it['alias'].upper()
         items.append(it)
 
+    tabs = [it for it in items if it['k'] == 'table']
+    mods = [it for it in items if it['k'] == 'model']
+    if not aliased and chance(1, 3):
+        # un-aliased items whose names share a suffix (only a longer name tells them apart) / un-aliased versions
+        variant = pick(['table-like-model', 'same-table-name', 'same-version', 'version'])
+        saved = copy.deepcopy(items)
+        if variant == 'table-like-model' and tabs:
+            t = pick(tabs)
+            t['tname'], t['qualified'] = pick(mods)['name'], True
+        elif variant == 'same-table-name' and len(tabs) >= 2:
+            a, b = tabs[0], tabs[1]
+            other = [n for n in sorted(TABLES) if TABLES[n] != TABLES[a['name']] and all(n != x['name'] for x in tabs)]
+            if other:
+                b['name'] = pick(other)
+                b['tname'], a['qualified'], b['qualified'] = a['name'], True, True
+        elif variant == 'same-version' and len(mods) == 2:
+            mods[0]['version'] = mods[1]['version'] = pick([1, 3, 12])
+        else:
+            pick(mods)['version'] = pick([1, 3, 12])
+        if Q({'catalog': cat, 'items': items}).problem():
+            items[:] = saved
+    elif aliased and tabs and chance(1, 10):
+        # a table in a schema of the data integration that is named like the project, the table like a model
+        t = pick(tabs)
+        t['schema'], t['tname'], t['qualified'] = project_of(cat), pick(sorted(MODELS)), True
+    names = Q({'catalog': cat, 'items': items})
+
     ids = iter(range(1, 100))
 
     def const(i, kinds_=('int', 'int', 'str')):
@@ -961,11 +1086,12 @@ def cases(draw):
         if kind == 'marg':
             return {'id': i, 'op': '=', 'args': [c(pick(scope_m)), {'const': const(i, ('int', 'int', 'str', 'str', 'null', 'bool', 'float', 'neg'))}]}
         if kind == 'mtarget':
-            cands = [m for m in scope_m if MODELS[items[m]['name']] is not None]
+            cands = [m for m in scope_m if MODELS[items[m]['name']]]
             if not cands:
                 return atom('marg', scope_d, scope_m)
             m = pick(cands)
-            return {'id': i, 'op': '=', 'args': [c(m, pick(['y', 'Y'])), {'const': const(i)}]}
+            more = MODELS[items[m]['name']][1:] if isinstance(MODELS[items[m]['name']], list) else []
+            return {'id': i, 'op': '=', 'args': [c(m, pick(['y', 'Y'] + more * 2)), {'const': const(i)}]}
         if kind == 'mrev':
             return {'id': i, 'op': '=', 'args': [{'const': const(i)}, c(pick(scope_m))]}
         if kind in ('mcmp', 'tconst'):
@@ -1027,6 +1153,20 @@ def cases(draw):
         before_d = [i for i in data_idx if i < j]
         before_m = [i for i in model_idx if i < j]
         ats = []
+        if j == 1 and items[0]['k'] == 'model':
+            # model JOIN table ON model.col = table.col [AND table.col = const]
+            for _ in range(pick([1, 1, 2])):
+                i = next(ids)
+                a = [{'col': pick([f'x{i}', f'X{i}']), 'of': 0, 'q': draw(st.integers(0, 2))},
+                     {'col': f'k{i}', 'of': 1, 'q': draw(st.integers(0, 2))}]
+                if chance(1, 2):
+                    a.reverse()
+                ats.append({'id': i, 'op': '=' if not chance(1, 12) else pick(['>', '<', '!=']), 'args': a})
+            if chance(1, 3):
+                i = next(ids)
+                ats.append({'id': i, 'op': '=', 'args': [{'col': f'g{i}', 'of': 1, 'q': draw(st.integers(0, 2))}, {'const': const(i)}]})
+            it['on'] = combine(ats, chance(1, 6))
+            continue
         if it['k'] == 'model':
             if not before_d:
                 continue
@@ -1066,6 +1206,15 @@ def cases(draw):
     if n_atoms:
         kinds_w = ['marg'] * 5 + ['mtarget', 'mrev', 'mcmp', 'mtcol', 'fcol', 'arith'] + ['tconst'] * 4 + ['trev', 'ttcol']
         ats = [atom(pick(kinds_w), data_idx, model_idx) for _ in range(n_atoms)]
+        margs = [a for a in ats if a['op'] == '=' and len(a['args']) == 2 and 'const' in a['args'][1]
+                 and 'col' in a['args'][0] and a['args'][0]['of'] in model_idx and a['args'][0]['col'].lower() not in ('y', 'z')]
+        if margs and chance(1, 6):
+            # a second value for the same argument
+            src, i = pick(margs), next(ids)
+            a = [dict(src['args'][0], q=draw(st.integers(0, 2))), {'const': 100 + i}]
+            if chance(1, 3):
+                a.reverse()
+            ats.insert(draw(st.integers(0, len(ats))), {'id': i, 'op': '=', 'args': a})
         where = combine(ats, chance(2, 5))
 
     # USING
@@ -1081,9 +1230,7 @@ def cases(draw):
                 continue
             if chance(2, 5):
                 of = pick(model_idx * 3 + data_idx)
-                pre = items[of]['alias'] if aliased else ([TABLES[items[of]['name']]] + [items[of]['name']]
-                                                          if items[of]['k'] != 'model' else [items[of]['name']])[-1]
-                name = pre + '.' + name
+                name = pick(names.qualifiers(of)) + '.' + name          # alias; else any name that is unique in the query
             v = pick([5, 10, 1000]) if name.lower().endswith('partition_size') else pick([n + 1, f'v{n}', 0, 'x'])
             using.append([name, v])
         if not using:
@@ -1133,7 +1280,120 @@ def exhaustive_cases():
                            'targets': '*', 'origin': f'exhaustive:{fi}:{sk}'}
 
 
+def exhaustive_extra():
+    """Name collisions, model-first ON clauses, USING key forms, repeated arguments, to_predict shapes, schema tables."""
+    T = lambda name, **kw: dict({'k': 'table', 'name': name, 'qualified': True}, **kw)
+    S = lambda name, **kw: dict({'k': 'sub', 'name': name, 'inner_where': False}, **kw)
+    M = lambda name, **kw: dict({'k': 'model', 'name': name, 'qualified': True}, **kw)
+    col = lambda of, name, q=0: {'col': name, 'of': of, 'q': q}
+    eq = lambda i, x, y: {'id': i, 'op': '=', 'args': [x, y]}
+    k = lambda v: {'const': v}
+
+    def conj(ats):
+        t = ats[0]
+        for a in ats[1:]:
+            t = {'and': [t, a]}
+        return t
+
+    def case(origin, items, where=None, using=None, cat='list'):
+        return {'catalog': cat, 'items': copy.deepcopy(items), 'where': where, 'using': using, 'as_kw': False,
+                'targets': '*', 'origin': 'extra:' + origin}
+
+    # (1) un-aliased items that share a name suffix: conditions / arguments / mappings of each item, both spellings
+    shapes = {'table-like-model': [T('t1', tname='pred'), M('pred', join='JOIN')],
+              'model-first': [M('pred'), T('t1', tname='pred', join='JOIN')],
+              'same-table-name': [T('t1'), T('t3', tname='t1', join='JOIN'), M('pred', join='JOIN')],
+              'same-version': [T('t1'), M('pred', version=3, join='JOIN'), M('pred2', version=3, join='LEFT JOIN')],
+              'three': [T('t1', tname='pred2'), T('t3', tname='pred2', join='JOIN'), M('pred2', join='JOIN')]}
+    for name, items in shapes.items():
+        for cat in ('list', 'dicts'):
+            n = len(Q({'catalog': cat, 'items': items}).qualifiers(0))
+            for qq in range(2):
+                ats = []
+                for idx, it in enumerate(items):
+                    ats.append(eq(idx + 1, col(idx, f'c{idx + 1}', qq), k(101 + idx)))
+                for with_on in (False, True):
+                    its = copy.deepcopy(items)
+                    if with_on and name != 'model-first':
+                        for idx, it in enumerate(its):
+                            if idx and it['k'] == 'model':
+                                it['on'] = eq(10 + idx, col(idx, f'x{idx}', qq), col(0, f'k{idx}', qq))
+                            elif idx:
+                                it['on'] = eq(10 + idx, col(0, f'k{idx}', qq), col(idx, f'f{idx}', qq))
+                    elif with_on:
+                        its[1]['on'] = eq(11, col(0, 'x1', qq), col(1, 'k1', qq))
+                    yield case(f'names:{name}', its, conj(ats), None, cat)
+                    for a in ats:
+                        yield case(f'names:{name}', its, a, None, cat)
+    # (2) model JOIN table ON ...
+    for data in (T('t1', alias='t'), S('t1', alias='t'), T('t1')):
+        m = M('pred', alias='m') if data.get('alias') else M('pred')
+        for join in ('JOIN', 'LEFT JOIN', 'INNER JOIN'):
+            for form in range(4):
+                a = eq(1, col(0, 'x1'), col(1, 'k1'))
+                b = eq(2, col(1, 'k2', 1), col(0, 'X2', 1))
+                g = eq(3, col(1, 'g3'), k(5))
+                on = [a, b, conj([a, b]), conj([g, a])][form]
+                for where in (None, eq(4, col(1, 'c4'), k(104)), conj([eq(4, col(0, 'c4'), k(104)), eq(5, col(1, 'c5'), k(105))])):
+                    yield case('model-first-on', [m, dict(data, join=join, on=on)], where)
+    # (3) USING key forms
+    for items in ([T('t1', alias='t'), M('pred', alias='m', join='JOIN')],
+                  [T('t1', alias='t'), M('pred', alias='M', join='JOIN')],
+                  [T('t1'), M('pred', join='JOIN')],
+                  [T('t1', alias='t'), M('pred', alias='m', join='JOIN'), M('pred2', alias='n', join='JOIN')],
+                  [T('t1'), M('pred', join='JOIN'), M('pred2', version=3, join='JOIN')]):
+        qs = Q({'catalog': 'list', 'items': items})
+        keys = ['opt', 'Opt', 'sec.opt', 'Sec.Opt', 'a.b.c', 'partition_size']
+        for idx in range(len(items)):
+            for pre in qs.qualifiers(idx):
+                keys += [pre + '.opt', pre + '.sec.Opt', swapcase(pre) + '.opt'] + ([pre + '.partition_size'] if idx else [])
+        for key in keys:
+            yield case('using-key', items, None, [[key, 5]])
+            yield case('using-key', items, None, [['first', 1], [key, 5], ['last', 'x']])
+    # (4) two values for one argument
+    for items in ([T('t1', alias='t'), M('pred', alias='m', join='JOIN')], [T('t1'), M('pred', join='JOIN')]):
+        for form in range(4):
+            a = eq(1, col(1, 'c1'), k(101))
+            b = [eq(2, col(1, 'c1'), k(102)), eq(2, k(102), col(1, 'c1')), eq(2, col(1, 'c1', 1), k('s2')),
+                 eq(2, col(1, 'C1'), k(102))][form]
+            t = eq(3, col(0, 'c3'), k(103))
+            for where in (conj([a, b]), conj([b, a]), conj([a, t, b]), conj([t, a, b]), {'and': [a, {'par': {'and': [t, b]}}]}):
+                yield case('duplicate-argument', items, where)
+    # (5) to_predict shapes x condition on the model
+    for model in sorted(MODELS):
+        for cname in ('y', 'Y', 'z', 'c1'):
+            for form in range(3):
+                a = [eq(1, col(1, cname), k(101)), eq(1, k(101), col(1, cname)),
+                     {'id': 1, 'op': '>', 'args': [col(1, cname), k(101)]}][form]
+                for cat in ('list', 'legacy'):
+                    yield case('to_predict', [T('t1', alias='t'), M(model, alias='m', join='JOIN')],
+                               conj([a, eq(2, col(0, 'c2'), k(102)), eq(3, col(1, 'c3'), k(103))]), None, cat)
+    # (6) a table of a schema that is named like the project
+    for cat in CATALOGS:
+        for tname in ('pred', 'pred2'):
+            for order in range(2):
+                sch = T('t2', schema=project_of(cat), tname=tname, alias='p', join='JOIN')
+                its = [T('t1', alias='t'), sch, M('pred2', alias='m', join='JOIN')] if order == 0 else \
+                    [dict(sch, join=None), M('pred2', alias='m', join='JOIN')]
+                di = 1 if order == 0 else 0
+                ats = [eq(1, col(di, 'c1'), k(101)), eq(2, col(len(its) - 1, 'c2'), k(102))] + \
+                    ([eq(3, col(0, 'c3'), k(103))] if order == 0 else [])
+                yield case('schema-table', its, conj(ats), None, cat)
+                yield case('schema-table', its, None, [['p.opt', 1], ['m.opt2', 2]], cat)
+
+
 def run_shard(col, k, nshards, tier, seed):
+    n_extra = 0
+    for i, c in enumerate(exhaustive_extra()):
+        n_extra += 1
+        if i % nshards == k:
+            for r in judge(c, col):
+                col.fail(r, c)
+    if k == 0:
+        col.exhaustive_parts.append(f'{n_extra} listed statements: un-aliased items sharing a name suffix (5 shapes x spellings x '
+                                    f'ON), model JOIN table ON (3 data kinds x 3 joins x 4 ON forms x 3 WHERE), USING key forms '
+                                    f'(plain / dotted / every qualifier of every item as prefix, 5 FROM shapes), two values for '
+                                    f'one argument, to_predict shapes x column x comparison, tables of a schema named like the project')
     for i, c in enumerate(exhaustive_cases()):
         if i % nshards == k:
             for r in judge(c, col):
